@@ -167,6 +167,17 @@ def r49(ctx: Ctx) -> RuleReport:
         any(isinstance(n, (ast.GeneratorExp, ast.ListComp)) and ".split(',')" in norm(n) and 'int(' in norm(n) for f in scope for n in walk_local(f.node))
     rep.add('penman.surface:AlignmentMarker.from_string: indices are the comma-separated integers of the rest', fi.loc(),
             'ok' if rest_ok else 'undecided')
+    # the constructor keeps the indices exactly as given (order and repetitions are part of what was written)
+    init = ctx.repo.cls('penman.surface', 'AlignmentMarker').find_method('__init__')
+    for n in walk_local(init.node):
+        if isinstance(n, ast.Assign) and norm(n.targets[0]) in ('self.indices', 'self.prefix'):
+            attr = n.targets[0].attr
+            v = n.value
+            changed = isinstance(v, ast.Call) and any(isinstance(x, ast.Call) and norm(x.func) in ('sorted', 'set', 'frozenset', 'reversed', 'dict.fromkeys')
+                                                       for x in ast.walk(v))
+            rep.add(f'penman.surface:AlignmentMarker.__init__: {attr} is stored as given', init.loc(n),
+                    'ok' if norm(v) == attr else ('violation' if changed else 'undecided'),
+                    '' if norm(v) == attr else f'`{norm(n)[:60]}`: the marker no longer records what the text said (~e.7,2 comes back as ~e.2,7; ~2,2 as ~2)')
     # writer side agrees: ~ prefix indices joined by commas
     w = ctx.repo.func('penman.surface', 'AlignmentMarker.__str__')
     src = norm(w.node)
@@ -247,6 +258,13 @@ def r51(ctx: Ctx) -> RuleReport:
                 rep.violation(f'penman.layout:_process_atomic: {norm(n)}', fi.loc(n),
                               f'the end of the string is searched as the text {sep!r}: that pair can also occur at the very start of the atom ("~user/data") or '
                               f'after an escaped quote inside it (\\"~), so content of the string is split off as an alignment')
+    for n in walk_local(fi.node):
+        if isinstance(n, ast.Call) and isinstance(n.func, ast.Attribute) and n.func.attr in ('search', 'finditer', 'findall', 'split', 'sub') \
+                and any(norm(a) == p for a in n.args):
+            found += 1
+            rep.violation(f'penman.layout:_process_atomic: {norm(n)[:50]}', fi.loc(n),
+                          f'the alignment is located with an unanchored regex {n.func.attr}() over the whole atom: the first alignment-like text anywhere is '
+                          f'taken, including one inside a quoted string ("http://example.org/~2/page"), and the rest of the atom is cut off')
     if not found:
         raise AnalysisError('_process_atomic: no search for the closing double quote')
     # strings are recognised by their opening quote
@@ -1145,7 +1163,7 @@ def r74(ctx: Ctx) -> RuleReport:
 
 @rule('R75', 'a lookup table stored on an object is a plain dict: reading a missing key must not insert it')
 def r75(ctx: Ctx) -> RuleReport:
-    rep = RuleReport('R75', r75.title, floor=2)
+    rep = RuleReport('R75', r75.title, floor=0)
     for fi in ctx.repo.all_functions():
         if fi.cls is None:
             continue
@@ -1254,6 +1272,9 @@ def r77(ctx: Ctx) -> RuleReport:
                     a = nd.ast
                     if isinstance(a, ast.AugAssign):
                         return True
+                    if isinstance(a, ast.Assign) and isinstance(a.targets[0], ast.Name) and isinstance(a.value, ast.BinOp) \
+                            and isinstance(a.value.op, (ast.BitOr, ast.Add)) and norm(a.value.left) == a.targets[0].id:
+                        return True         # x = x | y  /  x = x + y : an accumulator
                     return isinstance(a, ast.Assign) and isinstance(a.value, ast.Constant) and isinstance(a.value.value, (bool, int))
                 if all(harmless(d) for d in defs):
                     continue
@@ -1292,6 +1313,28 @@ def r77(ctx: Ctx) -> RuleReport:
     return rep
 
 
+def _is_counter(ctx: Ctx, fi: FuncInfo, name: str, depth: int = 0) -> bool:
+    if name in fi.params and not ctx.cg.local_assigns(fi).get(name) and depth < 2:
+        callers = ctx.cg.callers.get(fi.fq, [])
+        idx = fi.positional.index(name) if name in fi.positional else None
+        if not callers or idx is None:
+            return False
+        for cfi, call in callers:
+            a = call.args[idx] if idx < len(call.args) else next((k.value for k in call.keywords if k.arg == name), None)
+            if isinstance(a, ast.Call) and norm(a.func) in ('count', 'itertools.count'):
+                continue
+            if not (isinstance(a, ast.Name) and _is_counter(ctx, cfi, a.id, depth + 1)):
+                return False
+        return True
+    f = fi
+    while f is not None:
+        vals = [v for v in ctx.cg.local_assigns(f).get(name, []) if isinstance(v, ast.AST)]
+        if vals:
+            return all(isinstance(v, ast.Call) and norm(v.func) in ('count', 'itertools.count') for v in vals)
+        f = f.parent
+    return False
+
+
 @rule('R78', 'a search for an unused name terminates: candidates come from a counter that is part of the name, or a repeated candidate is detected')
 def r78(ctx: Ctx) -> RuleReport:
     from ..resolve import facts_ex
@@ -1323,6 +1366,10 @@ def r78(ctx: Ctx) -> RuleReport:
                 if isinstance(v, ast.JoinedStr) and any(isinstance(p, ast.FormattedValue) and isinstance(p.value, ast.Name) and p.value.id in counters
                                                         and p.format_spec is None for p in v.values):
                     verdicts.append('distinct')         # a literal template that spells out the counter
+                elif isinstance(v, ast.JoinedStr) and any(
+                        isinstance(p, ast.FormattedValue) and isinstance(p.value, ast.Call) and norm(p.value.func) == 'next' and p.value.args
+                        and isinstance(p.value.args[0], ast.Name) and p.format_spec is None and _is_counter(ctx, fi, p.value.args[0].id) for p in v.values):
+                    verdicts.append('distinct')         # the next value of an endless counter is part of the name
                 elif isinstance(v, ast.Call) and isinstance(v.func, ast.Attribute) and v.func.attr == 'format' and isinstance(v.func.value, ast.Name) \
                         and v.func.value.id in fi.params:
                     # the template is the caller's: nothing forces it to use the counter
@@ -1345,4 +1392,69 @@ def r78(ctx: Ctx) -> RuleReport:
                 rep.undecided(key, fi.loc(loop), norm(gens[0].value)[:60])
             else:
                 rep.ok(key, fi.loc(loop), ', '.join(sorted(set(verdicts))))
+    return rep
+
+
+@rule('R79', 'reify_attributes reifies exactly the attribute triples (the predicate of Graph.attributes)')
+def r79(ctx: Ctx) -> RuleReport:
+    from ..select import Selector
+    rep = RuleReport('R79', r79.title, floor=1)
+    fi = ctx.repo.func('penman.transform', 'reify_attributes')
+    gp = fi.positional[0]
+    sel = Selector(ctx)
+    loops = [n for n in walk_local(fi.node) if isinstance(n, ast.For) and norm(n.iter) == f'{gp}.triples']
+    if len(loops) != 1:
+        rep.undecided(f'{fi.fq}: loop over g.triples', fi.loc(), f'{len(loops)} loops')
+        return rep
+    loop = loops[0]
+    subst = sel.bind_target(loop.target, {})
+    for n in ast.walk(loop):
+        if isinstance(n, ast.Assign) and isinstance(n.targets[0], ast.Tuple) and len(n.targets[0].elts) == 3 and norm(n.value) == norm(loop.target):
+            for i, x in enumerate(n.targets[0].elts):
+                if isinstance(x, ast.Name):
+                    subst[x.id] = ast.Subscript(value=ast.Name(id='t', ctx=ast.Load()), slice=ast.Constant(value=i), ctx=ast.Load())
+    # the statement that creates the new node: an appended triple / tuple with the concept role in the middle, or the '_' candidate
+    site = None
+    for n in ast.walk(loop):
+        if isinstance(n, ast.Tuple) and len(n.elts) == 3 and norm(n.elts[1]) == 'CONCEPT_ROLE' and not (isinstance(loop.target, ast.Tuple) and n is loop.target):
+            site = n
+            break
+    if site is None:
+        for n in ast.walk(loop):
+            if isinstance(n, ast.Constant) and n.value == '_':
+                site = n
+                break
+    if site is None:
+        rep.undecided(f'{fi.fq}: the statement that creates the node of a reified attribute', fi.loc(loop))
+        return rep
+    decision = site
+    try:
+        got = sel.path_condition(fi, loop, site, {})
+    except AnalysisError as exc:
+        rep.undecided(f'{fi.fq}: the test that selects the triples to reify', fi.loc(loop), str(exc))
+        return rep
+    vname = next((nm for nm, vals in ctx.cg.local_assigns(fi).items() if any(isinstance(v, ast.Call) and norm(v.func) == f'{gp}.variables' for v in vals
+                                                                               if isinstance(v, ast.AST))), None)
+    def canon(f):
+        if isinstance(f, tuple) and f[0] == 'atom':
+            a = f[1].replace(f'{gp}.variables()', 'VARS')
+            if vname:
+                a = a.replace(f' in {vname}', ' in VARS')
+            return ('atom', a)
+        if isinstance(f, tuple) and f[0] == 'not':
+            return bn.mk_not(canon(f[1]))
+        if isinstance(f, tuple) and f[0] in ('and', 'or'):
+            return (f[0], [canon(x) for x in f[1]])
+        return f
+    got = canon(got)
+    want = bn.mk_and([bn.mk_not(('atom', 'CONCEPT_ROLE == t[1]')), bn.mk_not(('atom', 't[2] in VARS'))])
+    d = bn.equivalent(got, want)
+    key = f'{fi.fq}: a triple is reified iff it is not an instance triple and its target is not a variable'
+    if d is None:
+        rep.ok(key, fi.loc(decision), bn.show(got))
+    else:
+        narrower = bn.equivalent(bn.mk_and([want, bn.mk_not(got)]), False)
+        rep.add(key, fi.loc(decision), 'violation' if narrower is not None else 'undecided',
+                f'triples are reified when {bn.show(got)}; Graph.attributes() returns those with {bn.show(want)}: with {narrower} an attribute is left in the '
+                f'graph, so "reifying attributes leaves no attribute" fails' if narrower is not None else bn.show(got))
     return rep
